@@ -117,6 +117,15 @@ def r09_1_2(prog: Program, rep: Report):
     rep.check(ok_add, "R09.1", q, f.loc, "graph.add(parent, …) runs for every popped parent", "a popped parent is not added to the graph on some path", detail="add-parent")
     rep.check(ok_pred and n_child > 0, "R09.1", q, f.loc, "every non-skipped child becomes exactly one predecessor node of its parent", "a child that is not in the skip set does not become a predecessor of its parent (members would be built after their container)", detail="predecessor")
     rep.check(ok_skip and skipset is not None, "R09.1", q, f.loc, f"children are skipped only when they are in {skipset}", "a child is skipped outside the declared skip set", detail="skip-only")
+    # the revisit test must ask for the very thing that is recorded as visited (the member annotation itself)
+    asks_label = True
+    for p in iter_paths:
+        child = child_of(p)
+        cut = any(_is_typenode(s) and node_args(s).get("cyclic") == ("const", True) for tm in p.all_terms() for s in T.walk(tm))
+        if cut and child is not None:
+            if not any(pol and T.contains(g, lambda s: s[0] == "cmp" and s[1] == "in" and s[2] == child and s[3][0] == "set") for g, pol in p.guards()):
+                asks_label = False
+    rep.check(asks_label, "R09.2", q, f.loc, "the revisit test looks the member annotation itself up in `visited` (that is what gets recorded)", "the revisit test only looks the *unwrapped* annotation up, while `visited` records the annotation itself: a cycle closed through an alias or NewType label is never recognised (CycleError / non-termination)", detail="revisit-asks-label")
     rep.check(fwd_ok, "R09.2", q, f.loc, "every forward-reference node is flagged cyclic", "a node built from refs.forwardref is not flagged cyclic=True (the flag is invisible to == and to the exact-list tests)", detail="fwd-implies-cyclic")
     rep.check(cyc_ok, "R09.2", q, f.loc, "cyclic=True occurs only under the revisit test", "a node is flagged cyclic on a path that did not establish a revisit", detail="cyclic-implies-revisit")
     return skipset
@@ -184,6 +193,12 @@ def r09_5(prog: Program, rep: Report):
             # a typing repr ('typing.Optional[...]') does carry its module; a class' qualified name never does
             if (from_qual or from_qualattr) and not not_class:
                 mod_bad = True
+            # the reference stands for the *label* (alias / NewType object): its module is the label's own, which is
+            # what TypeContext.__missing__ rebuilds the key from
+            wrong_src = [s for s in T.walk(module) if T.is_call_to(s, "builtins.getattr") and len(s[2]) >= 2 and s[2][1] == ("const", "__module__") and s[2][0] != child]
+            if wrong_src:
+                mod_bad = True
+                mod_why = f"module= is taken from {T.show(wrong_src[0][2][0])[:50]} instead of the member annotation itself: a NewType/alias defined in another module than the class it wraps is registered under a key the context never asks for"
                 mod_why = "module= is derived from the child's qualified name (a __qualname__ never contains the module): Outer.Inner is deferred with module='Outer'"
     rep.check(not name_bad, "R09.5", q, f.loc, "the deferred node's name keeps the child's parameters", name_why, detail="name<-qualname")
     rep.check(not mod_bad, "R09.5", q, f.loc, "the deferred node's module comes from the child's __module__", mod_why, detail="module<-qualname")
@@ -250,9 +265,10 @@ def r09_4(prog: Program, rep: Report):
 
 def run(prog: Program, rep: Report, tier: str):
     rep.rule("R09.1", "every non-skipped child contributes a predecessor; parents always added", floor=3)
-    rep.rule("R09.2", "forward-ref node ⇔ cyclic flag ⇔ revisit", floor=2)
+    rep.rule("R09.2", "forward-ref node ⇔ cyclic flag ⇔ revisit; revisit test agrees with what is recorded", floor=3)
     rep.rule("R09.3", "_level = generic arguments ∪ type hints of the unwrapped parent", floor=3)
     rep.rule("R09.4", "reference inputs delegate to the memoised self; plain inputs = [*itertypes(t)]", floor=4)
+    rep.rule("R09.7", "references are named by qualified name and own module (refs.forwardref rules, shared with R11.7)", floor=5)
     rep.rule("R09.6", "termination: revisits of every type with members are cut (shared with R07.6)", floor=1)
     rep.rule("R09.5", "deferred node denotes exactly the type (name and module provenance)", floor=3)
     r09_1_2(prog, rep)
@@ -267,3 +283,9 @@ def run(prog: Program, rep: Report, tier: str):
     sub.rule("R07.6", "", 0)
     c07.r07_6(prog, sub)
     absorb(rep, sub, {"R07.6": "R09.6"})
+    from . import c11
+
+    sub = _R("C09", tier)
+    sub.rule("R09.7", "", 0)
+    c11.r11_7(prog, sub, rule="R09.7")
+    absorb(rep, sub, {"R09.7": "R09.7"})
